@@ -172,6 +172,8 @@ func runC10Dwell(c *Cfg) {
 func runC10SelfLoopEnd(c *Cfg) {
 	r := c.Rep
 	cases := selfLoopThenEndCases()
+	cases = append(cases, selfEmbeddedCases()...)     // a flow nested in itself unwinds level by level
+	cases = append(cases, startlessBranchCases()...) // an inner flow without start node that is never entered has no say
 	parallel(c, len(cases), func(i int) {
 		sc := cases[i]
 		outs, mrs := runScenario(sc)
